@@ -79,6 +79,9 @@ pub struct Eng<S: USet> {
     pub sig: BTreeSet<String>,
     pub cur_sig: String,
     pub quiet: bool,
+    /// some operation of the current history was not written to the trace (quiet mode): the model's picture
+    /// of the slots is stale until the next history, so `drop` lines carry no allocator calls to compare
+    pub untraced: bool,
     pub force_style: Option<u64>,
     pub script_len: usize,
 }
@@ -161,6 +164,7 @@ impl<S: USet> Eng<S> {
             sig: BTreeSet::new(),
             cur_sig: String::new(),
             quiet: false,
+            untraced: false,
             force_style: None,
             script_len: 600,
         };
@@ -176,6 +180,12 @@ impl<S: USet> Eng<S> {
     pub fn emit(&mut self, line: &str) {
         if self.mode != Mode::Unscripted && !self.quiet {
             writeln!(self.out, "{}", line).unwrap();
+        }
+        if self.quiet {
+            self.untraced = true;
+        }
+        if line.starts_with("hist ") {
+            self.untraced = false;
         }
         if self.samples.len() < 12 && self.cur_hist_lines < 6 && !line.starts_with("cfg") {
             let mut l = line.to_string();
@@ -400,6 +410,7 @@ impl<S: USet> Eng<S> {
             self.slots[i] = None;
             let a = alloc::ev_take().unwrap_or_default();
             self.oracle[i].clear();
+            let a = if self.untraced { String::new() } else { a };
             self.emit(&format!("drop {}{}", i, a));
             self.post_check();
         }
